@@ -82,6 +82,11 @@ func checkSentinelRecognises(c *Ctx, p *Prog, r *Report, sf *ssa.Function, cfg s
 
 func c02(c *Ctx) {
 	p, r := c.K1(), c.R
+	// R10: every method mocked through a per-type cache has a mocker (and so a guard slot) of its own (C06.R5): mockers
+	// that share one base record keep only the last guard, and Reset restores only that method
+	if !c.importing {
+		importSibling(c, "C06", "C02.R10", func(rule string) bool { return rule == "C06.R5" })
+	}
 	r.Expl = "Structural clauses behind 'Reset/Cancel restores the exact original bytes': the bytes written back on unpatch are the guard's originBytes at the guard's origin; those bytes have exactly one provenance — a private copy read of len(jump) bytes at the patch origin, accepted only when the already-patched sentinel test is false; before that capture every path restores a previously registered patch of the same origin (so the captured bytes are pristine); guard fields are written once, in the constructor, from the patch's corresponding fields; nothing reachable from Cancel/Reset writes jump bytes; Reset cancels every cached mocker unconditionally and container mockers cancel every child of every cache. Byte equality of the live image is not decided."
 	r.RuleText = "one obligation per (rule, store / call site / loop)"
 	r.Floor("C02.R1", 3)
